@@ -43,14 +43,17 @@ def obs (g : Net) (o : Obs) : String :=
   let bad := (List.range g.n).foldl (fun acc i => acc + (g.inst i).oracleBad) 0
   s!"{insts} q={qs} in={ib} err=[{errs}] act=[{acts}] tr=[{trace}] it=[{itr}] ob={bad}"
 
-def parseOracle (s : String) : List (Query × Bool) :=
+def parseOracle (s : String) : List (Query × Nat) :=
   (s.splitOn ",").filterMap (fun w =>
     match w.toList with
-    | [k, a] =>
+    | k :: rest =>
       let q : Option Query := match k with
         | 'S' => some .starterBusy | 'P' => some .stopperBusy | 'C' => some .conflicting | 'L' => some .lostProcs
+        | 'A' => some .acceptMaster
         | _ => none
-      q.map (fun q => (q, a == '1'))
+      match q, (String.ofList rest).toNat? with
+      | some q, some a => some (q, a)
+      | _, _ => none
     | _ => none)
 
 /-! ### judges: the documented graphs and entry conditions, evaluated on what the IMPLEMENTATION reported -/
